@@ -33,7 +33,7 @@ CLAIMS = {
         "advance; the compiled driver confirms (op KF) that the list-level family of the kernel theorem is, text by text, the family run on the C "
         "code; upper/mixed-case spellings give the same bytes; each line assembled a second time after NOP padding (chunk fitting re-assembles the "
         "record) gives the same instruction and offset; programs of 40 family lines in ONE call give the concatenation of the lines' own code.",
-   note="The kernel theorem is re-checked whenever the regenerated tables change (about 7 minutes on 16 cores, 75 CPU-minutes). It is over the MODEL; "
+   note="The kernel theorem is built by setup and re-checked by the thorough tier whenever the regenerated tables change (about 7 minutes on 16 cores, 75 CPU-minutes); the quick tier audits it when it is up to date with the regenerated tables and otherwise reports it as not established for this tree and searches for a failing input. It is over the MODEL; "
         "the tie to the C code is the exhaustive differential run of the same 51 022 lines. Equivalences accepted as 'the same operation': xchg is "
         "symmetric; xchg ax,ax / rax,rax may be the nop they are (not xchg eax,eax).",
    technique="Lean 4 reference decoder + abstract syntax; kernel-checked exhaustive theorem over the whole finite family (decide +kernel in 1 860 cells) lifted to all option bytes by a proved non-interference theorem; exhaustive differential run of the family on the C code with decoding oracle",
